@@ -328,7 +328,53 @@ fn list_of(ar: &mut Arena, items: &[usize], tail: usize) -> usize {
 /// returns (class name, root); `big` scales sizes (1 = quick)
 fn gen_tree(r: &mut Rng, ar: &mut Arena, big: u64) -> (&'static str, usize) {
     let nil = ar.atom(&[]);
-    match r.below(100) {
+    match r.below(112) {
+        100..=111 => {
+            // shapes whose serialization refers to the parse stack *itself* (path 1 and other
+            // tails of the stack list), several times and around a cons: (X X) with X a list,
+            // list-doubling T(n+1) = (T(n) T(n)), lists of identical sub-lists, (L . L), and trees
+            // decoded from a generated serialization made of stack-tail references
+            let leaf = |r: &mut Rng, ar: &mut Arena| if r.chance(2, 3) { rand_leaf(r, ar, 3) } else { small_tree(r, ar, 5) };
+            match r.below(5) {
+                0 => {
+                    let mut t = leaf(r, ar);
+                    if r.chance(1, 2) {
+                        let n = r.range(1, 3) as usize;
+                        let items: Vec<usize> = (0..n).map(|_| leaf(r, ar)).collect();
+                        t = list_of(ar, &items, nil);
+                    }
+                    for _ in 0..r.range(1, 5) {
+                        let inner = ar.pair(t, nil);
+                        t = ar.pair(t, inner);
+                    }
+                    ("stack_list_doubling", t)
+                }
+                1 => {
+                    let n = r.range(1, 4) as usize;
+                    let items: Vec<usize> = (0..n).map(|_| leaf(r, ar)).collect();
+                    let x = list_of(ar, &items, nil);
+                    let m = r.range(2, 7) as usize;
+                    let t = list_of(ar, &vec![x; m], nil);
+                    ("stack_same_sublists", if r.chance(1, 3) { let u = ar.pair(t, nil); ar.pair(t, u) } else { t })
+                }
+                2 => {
+                    let n = r.range(1, 5) as usize;
+                    let items: Vec<usize> = (0..n).map(|_| leaf(r, ar)).collect();
+                    let l = list_of(ar, &items, nil);
+                    let t = ar.pair(l, l);
+                    ("stack_l_dot_l", if r.chance(1, 2) { let u = ar.pair(t, nil); ar.pair(t, u) } else { t })
+                }
+                _ => {
+                    // a tree that has a serialization built from stack-tail references
+                    let n = *r.pick(&[6usize, 10, 16, 30, 60]);
+                    let b = stack_tail_bytes(r, n, 3);
+                    match arena_decode(ar, &b) {
+                        Some(t) => ("stack_decoded", t),
+                        None => ("stack_decoded", leaf(r, ar)),
+                    }
+                }
+            }
+        }
         0..=39 => {
             // random trees with heavy sub-tree sharing at varying depths and sizes
             let budget = *r.pick(&[3usize, 7, 15, 30, 60, 120, 250]) * if r.chance(1, 8) { big as usize } else { 1 };
@@ -647,7 +693,7 @@ fn grammar_bytes(r: &mut Rng, budget: usize, tail_pct: u64) -> Vec<u8> {
 /// (and sometimes elements), chosen with knowledge of the current stack depth so that they
 /// resolve: exercises lazy materialisation, reuse of cached lists, re-materialisation after a
 /// cons has popped cached entries
-fn stack_tail_bytes(r: &mut Rng, budget: usize) -> Vec<u8> {
+fn stack_tail_bytes(r: &mut Rng, budget: usize, min_atom: usize) -> Vec<u8> {
     let mut out = Vec::new();
     let mut ops: Vec<bool> = vec![false]; // false = parse an item, true = cons
     let mut depth: u32 = 0;
@@ -677,11 +723,11 @@ fn stack_tail_bytes(r: &mut Rng, budget: usize) -> Vec<u8> {
             };
             out.extend(enc_atom(&path_atom(p)));
         } else {
-            let a = match r.below(4) {
+            let a = match if min_atom > 0 { 3 } else { r.below(4) } {
                 0 => vec![],
                 1 => vec![r.next() as u8 & 0x7f],
                 _ => {
-                    let n = r.range(1, 4) as usize;
+                    let n = min_atom + r.range(1, 4) as usize;
                     r.bytes(n)
                 }
             };
@@ -690,6 +736,75 @@ fn stack_tail_bytes(r: &mut Rng, budget: usize) -> Vec<u8> {
         depth += 1;
     }
     out
+}
+
+/// generator-side decoder of a well-formed back-reference serialization into the arena (the parse
+/// stack is an arena list); used only to obtain trees, never for a verdict
+fn arena_decode(ar: &mut Arena, b: &[u8]) -> Option<usize> {
+    let nil = ar.atom(&[]);
+    let mut stack = nil;
+    let mut ops: Vec<bool> = vec![false];
+    let mut i = 0usize;
+    let read_atom = |i: &mut usize| -> Option<Vec<u8>> {
+        let c = *b.get(*i)?;
+        *i += 1;
+        if c <= 0x7f {
+            return Some(vec![c]);
+        }
+        let k = c.leading_ones() as usize;
+        if k > 2 {
+            return None;
+        }
+        let mut sz = (c & (0xffu8 >> k)) as usize;
+        if k == 2 {
+            sz = (sz << 8) | *b.get(*i)? as usize;
+            *i += 1;
+        }
+        let v = b.get(*i..*i + sz)?.to_vec();
+        *i += sz;
+        Some(v)
+    };
+    while let Some(cons) = ops.pop() {
+        if cons {
+            let (N::P(right, rest), ) = (ar.nodes[stack].clone(), ) else { return None };
+            let N::P(left, rest2) = ar.nodes[rest].clone() else { return None };
+            let p = ar.pair(left, right);
+            stack = ar.pair(p, rest2);
+            continue;
+        }
+        let c = *b.get(i)?;
+        if c == 0xff {
+            i += 1;
+            ops.push(true);
+            ops.push(false);
+            ops.push(false);
+        } else if c == 0xfe {
+            i += 1;
+            let path = read_atom(&mut i)?;
+            let mut node = stack;
+            let first = path.iter().position(|x| *x != 0);
+            match first {
+                None => node = nil,
+                Some(f) => {
+                    let total = 8 * (path.len() - f) - path[f].leading_zeros() as usize;
+                    for bit in 0..total - 1 {
+                        let byte = path[path.len() - 1 - bit / 8];
+                        let N::P(l, rr) = ar.nodes[node].clone() else { return None };
+                        node = if byte & (1 << (bit % 8)) != 0 { rr } else { l };
+                    }
+                }
+            }
+            stack = ar.pair(node, stack);
+        } else {
+            let a = read_atom(&mut i)?;
+            let n = ar.atom(&a);
+            stack = ar.pair(n, stack);
+        }
+    }
+    match ar.nodes[stack].clone() {
+        N::P(v, _) => Some(v),
+        _ => None,
+    }
 }
 
 fn random_bytes(r: &mut Rng) -> (&'static str, Vec<u8>) {
@@ -733,7 +848,7 @@ fn random_bytes(r: &mut Rng) -> (&'static str, Vec<u8>) {
         }
         3 => {
             let n = *r.pick(&[6usize, 10, 16, 30, 60]);
-            ("stack_tails", stack_tail_bytes(r, n))
+            ("stack_tails", stack_tail_bytes(r, n, 0))
         }
         _ => {
             let n = r.range(1, 40) as usize;
